@@ -9,7 +9,9 @@ THEOREMS = ['C12_snapshot_pure', 'C12_snapshot_is_get_stats', 'C12_hits_never_de
             'C12_times_nonneg_and_monotone', 'C12_reregister_keeps_data', 'C12_wellformed', 'C12_report_hits_monotone',
             'C12_label_stays_reported', 'C12_snapshot_entry_is_label_hits']
 LEVEL = 'proof'
-FEATURES = [{'rereg'}, {'rereg', 'gen'}, {'rereg', 'rec'}, {'gen'}, set(), {'rereg', 'twins'}]
+FEATURES = [{'rereg'}, {'rereg', 'gen'}, {'rereg', 'rec'}, {'gen'}, set(), {'rereg', 'twins'},
+            {'snapinside', 'snapmodes'}, {'snapinside', 'snapmodes', 'gen', 'rec'}, {'bigtime', 'snapmodes'}, {'bare', 'snapmodes'},
+            {'rereg', 'snapinside', 'snapmodes'}]
 
 
 def run(tier, seed):
